@@ -8,7 +8,8 @@ class C05(vlib.Spec):
     theorems = ["C05_set_laws", "C05_map_laws", "C05_any_merge_tree", "C05_any_merge_order",
                 "C05_set_tree", "C05_set_history", "C05_set_no_resurrect", "C05_set_no_resurrect_tree",
                 "C05_map_tree", "C05_map_visible", "C05_map_no_resurrect",
-                "C05_set_flag_needs_disjoint_refuted", "C05_map_flag_needs_disjoint_refuted"]
+                "C05_set_flag_needs_disjoint_refuted", "C05_map_flag_needs_disjoint_refuted",
+                "C05_set_holds_b_sound", "C05_set_holds_b_model", "C05_map_holds_b_model"]
     crate, group, binary = "h_tomb", "light", "h_tomb"
     imports = "From HV Require Import Lattice.Tomb."
     trusted_base = ["coqc 8.16.1 kernel (vm_compute used for case evaluation only)",
@@ -21,7 +22,8 @@ class C05(vlib.Spec):
                    "by n -> \"<name>-<n>\" (fixed, injective)"]
     rule = ("merge histories (2-6 replica states quick, 2-9 thorough, items/keys from {0..5}; set / map over Max<u8> / "
             "map over SetUnion<u8>) plus a random merge tree over the same states, run on the hash, roaring and fst "
-            "backends; ~1/8 of the cases contain states violating live/tombstone disjointness (correspondence only); "
+            "backends (maps also: hash receiver absorbing b-tree deltas, a deterministic visiting order); the "
+            "executable property includes the changed flags (flag == receiver no longer equal to its old value); ~1/8 of the cases contain states violating live/tombstone disjointness (correspondence only); "
             "non-trivial = some item is live in one replica state and tombstoned in another and some merge changed")
 
     def gen(self, rng, tier, n):
